@@ -18,6 +18,7 @@ CONSTANTS
   MaxLoopsPerCont = 2
   SCRIPT <- NoScript
   FOREIGN = FALSE
+  DOCS <- NoDocs
   NormC <- MCNormC
   ValidC <- MCValidC
   NormN <- MCNormN
